@@ -11,7 +11,8 @@ What is translated (no import, no execution: `ast` only):
 Supported subset: a body that is a (nested) chain of `if <cond>: return <e> | raise <Exc>(...)` [elif/else] ending in
 `return <e>`; conditions / expressions built from and / or / not, (chained) comparisons == != < <= > >= in `not in`,
 integer and boolean constants, + - * & | % // << >> on integers, conditional expressions, membership in tuple / list / set
-literals, local single-name assignments (inlined), names and dotted attribute paths that the per-function environment maps
+literals, local single-name assignments (inlined), calls of side-effect free helpers that consist of one return
+expression (inlined), names and dotted attribute paths that the per-function environment maps
 to model fields.
 Anything else raises `Unsupported`; the caller then emits the hand-written model function in place of the translation
 and marks the function UNTRANSLATED (the correspondence check remains the tie for it; nothing is claimed statically).
@@ -46,8 +47,37 @@ def _dotted(node):
 class Tr:
     """env: dotted python path -> (lean expression, type) with type in nat | bool | ety | natlist"""
 
-    def __init__(self, env):
+    def __init__(self, env, helpers=None):
         self.env = env
+        self.helpers = helpers or {}   # name -> FunctionDef of a side-effect free helper (single return expression)
+        self.depth = 0
+
+    def inline(self, node):
+        """call of a module-level function or of a method of the same class whose body is `return <expr>` (after an
+        optional docstring): translated in place with the parameters bound to the (translated) arguments"""
+        if node.keywords:
+            raise Unsupported("keyword arguments in a helper call")
+        name = _dotted(node.func)
+        fn = self.helpers.get(name) or self.helpers.get(name.split(".")[-1] if name.startswith(("self.", "cls.")) else "")
+        if fn is None:
+            raise Unsupported(f"call of {name}")
+        params = [a.arg for a in fn.args.args]
+        if params and params[0] in ("self", "cls") and name.startswith(("self.", "cls.")):
+            params = params[1:]
+        body = [b for b in fn.body if not (isinstance(b, ast.Expr) and isinstance(b.value, ast.Constant))]
+        if len(params) != len(node.args) or len(body) != 1 or not isinstance(body[0], ast.Return) or body[0].value is None:
+            raise Unsupported(f"helper {name} is not a single return expression")
+        if self.depth > 4:
+            raise Unsupported("helper nesting")
+        bound = {p: self.atom(a) for p, a in zip(params, node.args)}
+        saved = self.env
+        self.env = {**{k: v for k, v in saved.items() if "." in k}, **bound}   # module-level dotted names stay visible
+        self.depth += 1
+        try:
+            return self.atom(body[0].value)
+        finally:
+            self.env = saved
+            self.depth -= 1
 
     def atom(self, node):
         if isinstance(node, ast.Constant):
@@ -84,6 +114,8 @@ class Tr:
             return f"(if {c} = true then {a} else {b})", ta
         if isinstance(node, (ast.BoolOp, ast.Compare)) or (isinstance(node, ast.UnaryOp) and isinstance(node.op, ast.Not)):
             return self.cond(node), "bool"
+        if isinstance(node, ast.Call):
+            return self.inline(node)
         raise Unsupported(f"expression {ast.dump(node)[:80]}")
 
     def cmp1(self, op, l, r):
@@ -217,12 +249,23 @@ def _args(fn):
     return [a.arg for a in fn.args.args]
 
 
+def _helpers(tree, cls=None):
+    out = {n.name: n for n in tree.body if isinstance(n, ast.FunctionDef)}
+    if cls:
+        for n in ast.walk(tree):
+            if isinstance(n, ast.ClassDef) and n.name == cls:
+                for m in n.body:
+                    if isinstance(m, ast.FunctionDef):
+                        out.setdefault(m.name, m)
+    return out
+
+
 def gen_matches(tree, name):
     fn = _method(tree, "Service", name)
     a = _args(fn)
     if len(a) != 2:
         raise Unsupported("signature")
-    return Tr(_entry_env(a[0], a[1])).body(fn.body, raises=True)
+    return Tr(_entry_env(a[0], a[1]), _helpers(tree, "Service")).body(fn.body, raises=True)
 
 
 def gen_matches_service(tree):
@@ -234,7 +277,7 @@ def gen_matches_service(tree):
     for py, lean in (("service_id", "sid"), ("instance_id", "iid"), ("major_version", "maj"), ("minor_version", "min")):
         env[f"{a[0]}.{py}"] = (f"s.{lean}", "nat")
         env[f"{a[1]}.{py}"] = (f"o.{lean}", "nat")
-    return Tr(env).body(fn.body, raises=False)
+    return Tr(env, _helpers(tree, "Service")).body(fn.body, raises=False)
 
 
 def gen_reboot_cond(tree):
